@@ -314,6 +314,8 @@ def gen_case(world, tier, prop):
           'reader': frng.random() < (0.5 if big else 0.12),
           'reader_hashseed': str(frng.choice([5, 17, 123456, 999]))}
   crng = world.stream('conc')
+  if crng.random() < 0.1:
+    case['migrate'] = True
   if crng.random() < 0.35:
     # two loads under DIFFERENT policies overlap in two threads
     case['conc'] = {'a': crng.randrange(len(values)), 'b': crng.randrange(len(values)),
@@ -324,6 +326,8 @@ def gen_case(world, tier, prop):
                                            {'kind': 'pause', 'q': 0.6},
                                            {'kind': 'pct', 'd': 3, 'horizon': 4000}]),
                     'sched_seed': world.seed}
+    if crng.random() < 0.4:
+      case['conc']['import_race'] = True
   return case
 
 
@@ -812,6 +816,17 @@ def run(case):
       if v:
         viols.append(v)
         return res
+    if conc and conc.get('import_race'):
+      v = import_race(conc, res, real_importlib)
+      if v:
+        viols.append(v)
+        return res
+    # ---- a symbol is migrated between two dumps of the same value -----------
+    if case.get('migrate'):
+      v = migration_arm(res)
+      if v:
+        viols.append(v)
+        return res
     # ---- damaged documents ------------------------------------------------
     by_doc = {}
     for dmg in case['damages']:
@@ -880,18 +895,123 @@ def run(case):
   return res
 
 
+def migration_arm(res):
+  """dump; register "fsim.stubmod.moved_fn now lives in fsim.stubmod_new" while
+  a stand-in keeps the old name; dump the SAME value again: lossless or loud."""
+  from fiddle._src import special_overrides
+  probes = res['probes']
+  value = [fdl.Config(stubmod.moved_fn, uid=5), {'k': stubmod.moved_fn}]
+  want = C.canon(value)
+  doc1 = serialization.dump_json(value)
+  if C.canon(serialization.load_json(doc1)) != want:
+    return V('round-trip-differs', 'before the migration: ' + '; '.join(
+        C.diff(want, C.canon(serialization.load_json(doc1)))), arm='migrated')
+  special_overrides.register_special_override(
+      'fsim.stubmod', special_overrides.SpecialOverrides(
+          module_name='fsim.stubmod',
+          migrated_symbol_destination_modules={'moved_fn': 'fsim.stubmod_new'}))
+  probes['symbol_migrated_between_dumps'] = probes.get('symbol_migrated_between_dumps', 0) + 1
+  try:
+    doc2 = serialization.dump_json(value)
+  except Exception:  # pylint: disable=broad-except
+    probes['migrated_symbol_dump_refused'] = probes.get('migrated_symbol_dump_refused', 0) + 1
+    return None     # loud: fine
+  try:
+    back = serialization.load_json(doc2)
+  except Exception as e:  # pylint: disable=broad-except
+    return V('round-trip-raised', f'after the migration, a document that dump_json '
+             f'wrote does not load: {type(e).__name__}: {C.norm_text(str(e))[:200]}',
+             arm='migrated')
+  if C.canon(back) != want:
+    return V('round-trip-differs',
+             'after the migration dump_json wrote the stand-in under the old name, '
+             'which loads as the migrated symbol: '
+             + '; '.join(C.diff(want, C.canon(back))), arm='migrated')
+  return None
+
+
 class ThreadShim:
   """The import seam while several simulated threads load: each thread's imports
-  are checked against that thread's own policy."""
+  are checked against that thread's own policy.  The per-module import lock is
+  modelled by a schedulable lock: a thread that asks for a module another
+  simulated thread is still importing WAITS (as it would on the interpreter's
+  own import lock) instead of wedging the baton."""
 
   def __init__(self, shims, sched):
     self.shims, self.sched = shims, sched
+    self.locks = {}
 
   def __getattr__(self, name):
     return getattr(importlib, name)
 
   def import_module(self, name):
-    return self.shims[self.sched.thread_id()].import_module(name)
+    from fsim import simlock
+    lk = self.locks.get(name)
+    if lk is None:
+      lk = self.locks[name] = simlock.SimLock(True)
+    with lk:
+      return self.shims[self.sched.thread_id()].import_module(name)
+
+
+def import_race(conc, res, real_importlib):
+  """Two threads load documents naming a symbol of a module NOBODY has imported
+  yet; the module's body takes a while (pause points) and rebinds the name at
+  its end.  Both loads must come back with the module's final attribute."""
+  from fsim import sched as sched_lib
+  from fsim.world import World
+  from machines.threads import FIDDLE_SRC
+  import fsim
+  name = 'fsim.lazy_k'
+  sys.modules.pop(name, None)
+  if hasattr(fsim, 'lazy_k'):
+    delattr(fsim, 'lazy_k')
+  tree = json.loads(serialization.dump_json(
+      [fdl.Config(stubmod.lazy_proto, uid=7), stubmod.lazy_proto]))
+  for path in pyref_sites(tree):
+    node = S.get_path(tree, path)
+    if node['name'] == 'lazy_proto':
+      node['module'], node['name'] = name, 'make'
+  doc = json.dumps(tree)
+  pols = [RecordingPolicy(restrictive=False), RecordingPolicy(restrictive=False)]
+  rng = World(conc['sched_seed']).stream('sched')
+  sc = sched_lib.Sched(sched_lib.make_policy(conc['policy'], rng, 2), [FIDDLE_SRC],
+                       step_cap=2_000_000)
+  shims = [ImportShim(p) for p in pols]
+  out = [None, None]
+
+  def loader(t):
+    def body():
+      try:
+        out[t] = ('ok', serialization.load_json(doc, pyref_policy=pols[t]))
+      except Exception as e:  # pylint: disable=broad-except
+        out[t] = ('raised', e)
+    return body
+  for p_ in pols:
+    p_.sched = sc
+  serialization.importlib = ThreadShim(shims, sc)
+  try:
+    sc.run([loader(0), loader(1)])
+  finally:
+    serialization.importlib = real_importlib
+    for p_ in pols:
+      p_.sched = None
+  res['faults']['preempt'] = res['faults'].get('preempt', 0) + sc.switches
+  res['faults']['slow_import'] = res['faults'].get('slow_import', 0) + 1
+  res['steps'] += sc.steps
+  final = getattr(sys.modules.get(name), 'make', None)
+  for t in (0, 1):
+    kind, val = out[t]
+    what = f'thread {t} of two loads racing with the first import of {name}'
+    if kind != 'ok':
+      return V('concurrent-load-raised', f'{what}: {type(val).__name__}: '
+               + C.norm_text(str(val))[:200], arm='import-race')
+    got = [fdl.get_callable(val[0]), val[1]]
+    if any(g is not final for g in got):
+      return V('round-trip-differs',
+               f'{what}: the loaded symbol is not the attribute the module ends up '
+               f'with (it was read from the half-initialised module): '
+               f'{[getattr(g, "__qualname__", g) for g in got]}', arm='import-race')
+  return None
 
 
 def concurrent_loads(conc, doc_a, doc_b, res, real_importlib):
